@@ -384,16 +384,42 @@ def run(ch, idx, tier):
         pk = ch.choose("cdata.pops", 3)
         pp = "all" if pk == 0 else (pops[ch.choose("cdata.pop", len(pops))] if pk == 1 else ch.shuffle("cdata.poplist", pops)[: 1 + ch.choose("cdata.npops", len(pops))])
         year = None if ch.flip("cdata.allyears", 0.5) else [float(P.data.tvec[0]), float(P.data.tvec[-1])]
-        history.append({"op": "get_cascade_data", "cascade": str(spec), "pops": pp, "year": year})
+        # sparse data: some populations lack entries for some constituents / years (databooks are rarely complete)
+        import sciris as _sc
+
+        data_ = P.data
+        gaps = []
+        if len(pops) > 1 and ch.flip("cdata.gaps", 0.5):
+            data_ = _sc.dcp(P.data)
+            try:
+                _, cd0, _ = sanitize_cascade(fw, spec)
+                consts = sorted({c for inc in cd0.values() for c in ([inc] if isinstance(inc, str) else inc)})
+            except Exception:
+                consts = []
+            for g in range(1 + ch.choose("cdata.ngaps", 3)):
+                if not consts:
+                    break
+                code = consts[ch.choose(f"cdata.gap_const[{g}]", len(consts))]
+                pop_g = pops[ch.choose(f"cdata.gap_pop[{g}]", len(pops))]
+                ts_g = data_.get_ts(code, pop_g)
+                if ts_g is not None and ts_g.has_time_data:
+                    if ch.flip(f"cdata.gap_all[{g}]", 0.5):
+                        ts_g.t, ts_g.vals = [], []
+                    else:
+                        ts_g.remove(ts_g.t[ch.choose(f"cdata.gap_year[{g}]", len(ts_g.t))])
+                    gaps.append([code, pop_g])
+        history.append({"op": "get_cascade_data", "cascade": str(spec), "pops": pp, "year": year, "gaps": gaps})
         try:
             _, cdict, _ = sanitize_cascade(fw, spec)
-            d_before = digest_obj(P.data)
-            vals, t = get_cascade_data(P.data, fw, spec, pp, year)
+            d_before = digest_obj(data_)
+            vals, t = get_cascade_data(data_, fw, spec, pp, year)
         except Exception:
             bump("query_refused")
             return
-        if digest_obj(P.data) != d_before:
+        if digest_obj(data_) != d_before:
             violate("reporting_modifies_data", "get_cascade_data", {"cascade": str(spec)})
+        if gaps:
+            bump("probe:cascade_data_with_gaps")
         compared += 1
         bump("evaluations")
         pop_list = pops if pp == "all" else ([pp] if isinstance(pp, str) else list(pp))
@@ -403,7 +429,7 @@ def run(ch, idx, tier):
             exp = np.zeros(t.shape)
             for code in includes:
                 for pop in pop_list:
-                    ts = P.data.get_ts(code, pop)
+                    ts = data_.get_ts(code, pop)
                     v = np.full(t.shape, np.nan)
                     if ts is not None:
                         for tv, vv in zip(ts.t, ts.vals):
